@@ -1,6 +1,813 @@
-//! Property C12 — correspondence / expectation run (see DESIGN.md §5, C12).
+//! Property C12 — serialization (DESIGN §5, C12): every serializable artefact of every scheme
+//! round-trips (compressed / uncompressed × validated / not), reports the number of bytes it writes,
+//! verification with deserialized keys / commitments / proofs decides like the originals, every
+//! proper prefix of an encoding is refused.  For the hand-written impls the byte string is also
+//! compared with the per-field encodings put together in the order of the *generated* schema
+//! (`translators/ser_schema.py` → `Generated/SerSchemas.lean` + `.build/run/ser_schemas.txt`), both
+//! locally and by the Lean model (`c12.layout`).
+use crate::common::*;
+use crate::generic::{self, Instance, Outcome, Scheme};
+use crate::kzg;
+use crate::wire::{self, Req, Val};
 use crate::Ctx;
+use ark_bls12_381::{Bls12_381, Fr};
+use ark_ff::UniformRand;
+use ark_poly::{DenseMultilinearExtension, MultilinearExtension, Polynomial};
+use ark_poly_commit::{
+    kzg10, marlin_pst13_pc, multilinear_pc, sonic_pc, BatchLCProof, Evaluations, LabeledCommitment,
+    LinearCombination, PolynomialCommitment, QuerySet,
+};
+use ark_serialize::{CanonicalDeserialize, CanonicalSerialize, Compress, Validate};
+use std::any::Any;
+
+type Pt<S> = <<S as Scheme>::P as Polynomial<Fr>>::Point;
+type PCof<S> = <S as Scheme>::PC;
+type Comm<S> = <PCof<S> as PolynomialCommitment<Fr, <S as Scheme>::P>>::Commitment;
+type State<S> = <PCof<S> as PolynomialCommitment<Fr, <S as Scheme>::P>>::CommitmentState;
+type CK<S> = <PCof<S> as PolynomialCommitment<Fr, <S as Scheme>::P>>::CommitterKey;
+type VK<S> = <PCof<S> as PolynomialCommitment<Fr, <S as Scheme>::P>>::VerifierKey;
+type PP<S> = <PCof<S> as PolynomialCommitment<Fr, <S as Scheme>::P>>::UniversalParams;
+type BProof<S> = <PCof<S> as PolynomialCommitment<Fr, <S as Scheme>::P>>::BatchProof;
+type SProof<S> = <PCof<S> as PolynomialCommitment<Fr, <S as Scheme>::P>>::Proof;
+
+const COMPRESS: [(Compress, &str); 2] = [(Compress::Yes, "compressed"), (Compress::No, "uncompressed")];
+const VALIDATE: [(Validate, &str); 2] = [(Validate::Yes, "validate"), (Validate::No, "novalidate")];
+
+// ------------------------------------------------------------------------------------------------
+// serialization helpers
+// ------------------------------------------------------------------------------------------------
+fn ser_mode<T: CanonicalSerialize + ?Sized>(x: &T, c: Compress) -> Result<Vec<u8>, String> {
+    match guarded(|| {
+        let mut v = vec![];
+        x.serialize_with_mode(&mut v, c).map(|_| v)
+    }) {
+        Ok(Ok(v)) => Ok(v),
+        Ok(Err(e)) => Err(format!("{:?}", e)),
+        Err(a) => Err(a),
+    }
+}
+
+/// deserialize from a byte slice; also returns how many bytes were left unread
+fn deser_mode<T: CanonicalDeserialize>(bytes: &[u8], c: Compress, v: Validate) -> Result<(T, usize), String> {
+    match guarded(|| {
+        let mut rd: &[u8] = bytes;
+        T::deserialize_with_mode(&mut rd, c, v).map(|y| (y, rd.len()))
+    }) {
+        Ok(Ok(p)) => Ok(p),
+        Ok(Err(e)) => Err(format!("{:?}", e)),
+        Err(a) => Err(a),
+    }
+}
+
+fn hex(b: &[u8]) -> String {
+    let mut s = String::new();
+    for x in b.iter().take(96) {
+        s.push_str(&format!("{:02x}", x));
+    }
+    if b.len() > 96 {
+        s.push_str("..");
+    }
+    s
+}
+
+/// the cut points at which prefixes are tried: all of them for short strings, otherwise the ends,
+/// the neighbourhood of the length prefixes, the given field boundaries (±1) and a random sample
+fn cut_points(rng: &mut Rng, len: usize, boundaries: &[usize]) -> Vec<usize> {
+    if len <= 300 {
+        return (0..len).collect();
+    }
+    let mut cuts: Vec<usize> = vec![0, 1, 2, 7, 8, 9, 15, 16, 17, len / 2, len - 2, len - 1];
+    for &b in boundaries {
+        for d in [-1i64, 0, 1] {
+            let c = b as i64 + d;
+            if c >= 0 && (c as usize) < len {
+                cuts.push(c as usize);
+            }
+        }
+    }
+    for _ in 0..48 {
+        cuts.push(range(rng, 0, len - 1));
+    }
+    cuts.sort();
+    cuts.dedup();
+    cuts.retain(|c| *c < len);
+    cuts
+}
+
+/// deserialized copies of one artefact: (compressed, validated) and (uncompressed, not validated)
+struct Copies<T> {
+    cv: Option<T>,
+    un: Option<T>,
+}
+
+/// All byte-level checks of C12 on one artefact.
+fn artefact<T: CanonicalSerialize + CanonicalDeserialize>(
+    ctx: &mut Ctx,
+    rng: &mut Rng,
+    id: &str,
+    scheme: &str,
+    what: &str,
+    x: &T,
+    boundaries: &[Vec<usize>; 2],
+) -> Copies<T> {
+    let mut copies = Copies { cv: None, un: None };
+    for (ci, (c, cname)) in COMPRESS.iter().enumerate() {
+        let aid = format!("{}/{}/{}", id, what, cname);
+        let sig = |k: &str| format!("{}/{}/{}", scheme, what.split('#').next().unwrap_or(what), k);
+        let replay = |extra: &str, bytes: &[u8]| {
+            format!(
+                "# property C12\n# scheme: {}\n# artefact: {} ({})\n# case: {}\n# {}\n# bytes[{}]: {}\n# rerun: .build/cargo/debug/pcv-harness C12 --only {}\n",
+                scheme, what, cname, aid, extra, bytes.len(), hex(bytes), id
+            )
+        };
+        let bytes = match ser_mode(x, *c) {
+            Ok(b) => b,
+            Err(e) => {
+                ctx.rep.expect_fail(&aid, &sig("serialize-failed"), &format!("serialization of an honest {} failed: {}", what, e), replay(&e, &[]));
+                ctx.rep.case(&format!("{} {} {} serialize failed", scheme, what, cname), None);
+                continue;
+            }
+        };
+        // reported size
+        match guarded(|| x.serialized_size(*c)) {
+            Ok(n) if n == bytes.len() => {}
+            Ok(n) => ctx.rep.expect_fail(&aid, &sig("size-mismatch"),
+                &format!("serialized_size({}) = {} but {} bytes were written", cname, n, bytes.len()),
+                replay(&format!("serialized_size={} written={}", n, bytes.len()), &bytes)),
+            Err(a) => ctx.rep.expect_fail(&aid, &sig("size-aborted"), &format!("serialized_size aborted: {}", a), replay(&a, &bytes)),
+        }
+        // round trip in both validation modes
+        for (v, vname) in VALIDATE.iter() {
+            match deser_mode::<T>(&bytes, *c, *v) {
+                Ok((y, left)) => {
+                    if left != 0 {
+                        ctx.rep.expect_fail(&aid, &sig("bytes-left-unread"),
+                            &format!("deserialization ({}) left {} of {} bytes unread", vname, left, bytes.len()),
+                            replay(&format!("{} left={}", vname, left), &bytes));
+                    }
+                    match ser_mode(&y, *c) {
+                        Ok(b2) if b2 == bytes => {}
+                        Ok(b2) => {
+                            let at = b2.iter().zip(bytes.iter()).position(|(a, b)| a != b).unwrap_or(b2.len().min(bytes.len()));
+                            ctx.rep.expect_fail(&aid, &sig("reserialization-differs"),
+                                &format!("ser(deser(ser x)) != ser x ({}): lengths {} vs {}, first difference at byte {}", vname, b2.len(), bytes.len(), at),
+                                replay(&format!("{} reserialized[{}]: {}", vname, b2.len(), hex(&b2)), &bytes));
+                        }
+                        Err(e) => ctx.rep.expect_fail(&aid, &sig("reserialization-failed"),
+                            &format!("deserialized value does not serialize ({}): {}", vname, e), replay(&e, &bytes)),
+                    }
+                    match (ci, matches!(v, Validate::Yes)) {
+                        (0, true) => copies.cv = Some(y),
+                        (1, false) => copies.un = Some(y),
+                        _ => {}
+                    }
+                }
+                Err(e) => ctx.rep.expect_fail(&aid, &sig("roundtrip-refused"),
+                    &format!("deserialization ({}, {}) of an honest encoding failed: {}", cname, vname, e),
+                    replay(&format!("{}: {}", vname, e), &bytes)),
+            }
+        }
+        // an encoding followed by other data: the value is the same and exactly the rest is left
+        {
+            let mut ext = bytes.clone();
+            ext.extend_from_slice(&[0xAB, 0xCD, 0xEF]);
+            match deser_mode::<T>(&ext, *c, Validate::No) {
+                Ok((y, left)) => {
+                    let same = ser_mode(&y, *c).map(|b| b == bytes).unwrap_or(false);
+                    if left != 3 || !same {
+                        ctx.rep.expect_fail(&aid, &sig("framing"),
+                            &format!("deserializing enc ‖ rest left {} bytes (expected 3) / same value: {}", left, same),
+                            replay("encoding followed by ab cd ef", &bytes));
+                    }
+                }
+                Err(e) => ctx.rep.expect_fail(&aid, &sig("framing"),
+                    &format!("deserializing enc ‖ rest failed: {}", e), replay("encoding followed by ab cd ef", &bytes)),
+            }
+        }
+        // proper prefixes
+        let cuts = cut_points(rng, bytes.len(), &boundaries[ci]);
+        let all = bytes.len() <= 300;
+        let mut parsed: Option<(usize, &str)> = None;
+        let mut tried = 0usize;
+        for (k, &cut) in cuts.iter().enumerate() {
+            for (v, vname) in VALIDATE.iter() {
+                if !all && matches!(v, Validate::Yes) && k % 4 != 0 {
+                    continue;
+                }
+                tried += 1;
+                if deser_mode::<T>(&bytes[..cut], *c, *v).is_ok() && parsed.is_none() {
+                    parsed = Some((cut, vname));
+                }
+            }
+        }
+        if let Some((cut, vname)) = parsed {
+            ctx.rep.expect_fail(&aid, &sig("prefix-parsed"),
+                &format!("the first {} of {} bytes deserialize successfully ({}, {})", cut, bytes.len(), cname, vname),
+                replay(&format!("prefix length {} parses ({})", cut, vname), &bytes));
+        }
+        ctx.rep.count(&format!("{}/{}", scheme, what.split('#').next().unwrap_or(what)));
+        ctx.rep.count(&format!("prefixes-tried/{}", if all { "all" } else { "sampled" }));
+        ctx.rep.count(&format!("size/{}", match bytes.len() { 0 => "0", 1..=99 => "<100", 100..=999 => "<1k", 1000..=9999 => "<10k", _ => ">=10k" }));
+        ctx.rep.case(
+            &format!("{} {} {} len={} prefixes={}", scheme, what, cname, bytes.len(), tried),
+            if bytes.len() > 8 { Some(format!("{}/{}/{}/{}", scheme, what.split('#').next().unwrap_or(what), cname, bytes.len())) } else { None },
+        );
+    }
+    copies
+}
+
+const NOB: [Vec<usize>; 2] = [Vec::new(), Vec::new()];
+
+// ------------------------------------------------------------------------------------------------
+// byte layout of the hand-written impls against the generated schema
+// ------------------------------------------------------------------------------------------------
+#[derive(Clone, Debug)]
+struct SchemaTxt {
+    idx: usize,
+    name: String,
+    fields: Vec<String>,
+    written: Vec<String>,
+    sized: Vec<String>,
+}
+
+fn load_schemas(ctx: &mut Ctx) -> Vec<SchemaTxt> {
+    let path = format!("{}/ser_schemas.txt", ctx.workdir);
+    if !std::path::Path::new(&path).exists() {
+        // stand-alone run of the harness: ask T1 for it
+        let _ = std::process::Command::new("python3")
+            .arg("/verif/translators/ser_schema.py")
+            .arg("--quiet")
+            .arg("--txt")
+            .arg(&path)
+            .status();
+    }
+    let text = std::fs::read_to_string(&path).unwrap_or_default();
+    let mut out = vec![];
+    let mut cur: Option<SchemaTxt> = None;
+    for line in text.lines() {
+        let mut it = line.split_whitespace();
+        let words = |it: std::str::SplitWhitespace| it.map(|s| s.to_string()).collect::<Vec<_>>();
+        match it.next() {
+            Some("schema") => {
+                let idx = it.next().and_then(|s| s.parse().ok()).unwrap_or(usize::MAX);
+                let name = it.next().unwrap_or("").to_string();
+                cur = Some(SchemaTxt { idx, name, fields: vec![], written: vec![], sized: vec![] });
+            }
+            Some("fields") => if let Some(c) = cur.as_mut() { c.fields = words(it) },
+            Some("written") => if let Some(c) = cur.as_mut() { c.written = words(it) },
+            Some("sized") => if let Some(c) = cur.as_mut() { c.sized = words(it) },
+            Some("end") => if let Some(c) = cur.take() { out.push(c) },
+            _ => {}
+        }
+    }
+    if out.is_empty() {
+        ctx.rep.model_disagreements.push(Failure {
+            case_id: "C12/schemas".into(),
+            signature: "layout/no-generated-schemas".into(),
+            what: format!("{} is missing or empty: the generated schemas (T1) are not available", path),
+            replay: format!("# run: python3 /verif/translators/ser_schema.py\n# expected file: {}\n", path),
+        });
+    }
+    out
+}
+
+fn layout_break(ctx: &mut Ctx, id: &str, name: &str, what: String) {
+    ctx.rep.model_disagreements.push(Failure {
+        case_id: id.to_string(),
+        signature: format!("layout/{}", name),
+        what: what.clone(),
+        replay: format!("# property C12: byte layout of {} differs from the generated schema\n# case: {}\n# {}\n# regenerate: python3 /verif/translators/ser_schema.py\n", name, id, what),
+    });
+}
+
+/// Compare `ser(x)` with the per-field encodings in the generated order (locally and in the
+/// model); returns the field boundaries per compression mode.
+fn layout<T: CanonicalSerialize>(
+    ctx: &mut Ctx,
+    schemas: &[SchemaTxt],
+    id: &str,
+    name: &str,
+    x: &T,
+    enc: &dyn Fn(&str, Compress) -> Option<Vec<u8>>,
+) -> [Vec<usize>; 2] {
+    let mut bounds = [vec![], vec![]];
+    let s = match schemas.iter().find(|s| s.name == name) {
+        Some(s) => s.clone(),
+        None => {
+            // the type is no longer hand-written (derived): nothing to tie
+            ctx.rep.count(&format!("layout-skipped/{}", name));
+            return bounds;
+        }
+    };
+    for (ci, (c, cname)) in COMPRESS.iter().enumerate() {
+        let lid = format!("{}/layout/{}/{}", id, name, cname);
+        let bytes = match ser_mode(x, *c) {
+            Ok(b) => b,
+            Err(_) => continue, // reported by `artefact`
+        };
+        let mut per_field: Vec<(String, Vec<u8>)> = vec![];
+        let mut ok = true;
+        for f in &s.fields {
+            match enc(f, *c) {
+                Some(b) => per_field.push((f.clone(), b)),
+                None => {
+                    layout_break(ctx, &lid, name, format!("the harness has no encoder for declared field `{}` of {}", f, name));
+                    ok = false;
+                }
+            }
+        }
+        if !ok {
+            continue;
+        }
+        let get = |f: &String| per_field.iter().find(|(n, _)| n == f).map(|(_, b)| b.clone());
+        let mut cat = vec![];
+        let mut missing = false;
+        for f in &s.written {
+            match get(f) {
+                Some(b) => {
+                    cat.extend_from_slice(&b);
+                    bounds[ci].push(cat.len());
+                }
+                None => missing = true,
+            }
+        }
+        let size_sum: usize = s.sized.iter().map(|f| get(f).map(|b| b.len()).unwrap_or(0)).sum();
+        if missing || cat != bytes {
+            let at = cat.iter().zip(bytes.iter()).position(|(a, b)| a != b).unwrap_or(cat.len().min(bytes.len()));
+            layout_break(ctx, &lid, name, format!(
+                "ser(x) ({} bytes) is not the concatenation of the field encodings in the generated order {:?} ({} bytes); first difference at byte {}",
+                bytes.len(), s.written, cat.len(), at));
+        }
+        match guarded(|| x.serialized_size(*c)) {
+            Ok(n) if n == size_sum => {}
+            other => layout_break(ctx, &lid, name, format!(
+                "serialized_size = {:?} but the generated summands {:?} give {}", other, s.sized, size_sum)),
+        }
+        // the model's struct codec on the same field encodings
+        let fields_val = Val::L(per_field.iter().map(|(_, b)| Val::L(b.iter().map(|x| wire::nat(*x as usize)).collect())).collect());
+        ctx.ses.ask(
+            &lid,
+            Req::new("c12.layout").arg("idx", wire::nat(s.idx)).arg("fields", fields_val),
+            ImplOutcome::Ok(vec![
+                ("enc".into(), Expect::Raw(Val::L(bytes.iter().map(|x| wire::nat(*x as usize)).collect()))),
+                ("size".into(), Expect::Nat(bytes.len())),
+                ("rt".into(), Expect::Bool(true)),
+                ("trunc".into(), Expect::Bool(true)),
+            ]),
+        );
+        ctx.rep.count(&format!("layout/{}", name));
+    }
+    bounds
+}
+
+macro_rules! field_encoder {
+    ($x:expr; $($f:ident),*) => {
+        |name: &str, c: Compress| -> Option<Vec<u8>> {
+            match name {
+                $( stringify!($f) => ser_mode(&$x.$f, c).ok(), )*
+                n if n.starts_with("prepared_") => Some(vec![]),
+                _ => None,
+            }
+        }
+    };
+}
+
+type MvPoly = generic::MvPoly;
+
+/// If `x` is one of the structs with a hand-written impl, tie its layout to the schema.
+fn layout_any(ctx: &mut Ctx, schemas: &[SchemaTxt], id: &str, x: &dyn Any) -> [Vec<usize>; 2] {
+    if let Some(p) = x.downcast_ref::<kzg10::UniversalParams<Bls12_381>>() {
+        let e = field_encoder!(p; powers_of_g, powers_of_gamma_g, h, beta_h, neg_powers_of_h);
+        return layout(ctx, schemas, id, "kzg10::UniversalParams", p, &e);
+    }
+    if let Some(p) = x.downcast_ref::<kzg10::Powers<'static, Bls12_381>>() {
+        let e = |name: &str, c: Compress| -> Option<Vec<u8>> {
+            match name {
+                "powers_of_g" => ser_mode(&p.powers_of_g[..], c).ok(),
+                "powers_of_gamma_g" => ser_mode(&p.powers_of_gamma_g[..], c).ok(),
+                _ => None,
+            }
+        };
+        return layout(ctx, schemas, id, "kzg10::Powers", p, &e);
+    }
+    if let Some(p) = x.downcast_ref::<kzg10::VerifierKey<Bls12_381>>() {
+        let e = field_encoder!(p; g, gamma_g, h, beta_h);
+        return layout(ctx, schemas, id, "kzg10::VerifierKey", p, &e);
+    }
+    if let Some(p) = x.downcast_ref::<sonic_pc::VerifierKey<Bls12_381>>() {
+        let e = field_encoder!(p; g, gamma_g, h, beta_h, degree_bounds_and_neg_powers_of_h, supported_degree, max_degree);
+        return layout(ctx, schemas, id, "sonic_pc::VerifierKey", p, &e);
+    }
+    if let Some(p) = x.downcast_ref::<marlin_pst13_pc::UniversalParams<Bls12_381, MvPoly>>() {
+        let e = field_encoder!(p; powers_of_g, gamma_g, powers_of_gamma_g, h, beta_h, num_vars, max_degree);
+        return layout(ctx, schemas, id, "marlin_pst13_pc::UniversalParams", p, &e);
+    }
+    if let Some(p) = x.downcast_ref::<marlin_pst13_pc::VerifierKey<Bls12_381>>() {
+        let e = field_encoder!(p; g, gamma_g, h, beta_h, num_vars, supported_degree, max_degree);
+        return layout(ctx, schemas, id, "marlin_pst13_pc::VerifierKey", p, &e);
+    }
+    [vec![], vec![]]
+}
+
+// ------------------------------------------------------------------------------------------------
+// the 8 trait-level schemes
+// ------------------------------------------------------------------------------------------------
+fn relabel<C: ark_poly_commit::PCCommitment>(orig: &[LabeledCommitment<C>], cs: Vec<C>) -> Vec<LabeledCommitment<C>> {
+    orig.iter()
+        .zip(cs)
+        .map(|(o, c)| LabeledCommitment::new(o.label().clone(), c, o.degree_bound()))
+        .collect()
+}
+
+fn scheme_run<S: Scheme>(ctx: &mut Ctx, schemas: &[SchemaTxt], n: usize)
+where
+    Pt<S>: Clone + Ord + std::fmt::Debug,
+    Comm<S>: Clone,
+    State<S>: Clone,
+    SProof<S>: CanonicalSerialize + CanonicalDeserialize + Clone,
+    BProof<S>: Clone,
+    PP<S>: 'static,
+    CK<S>: 'static,
+    VK<S>: 'static,
+{
+    for i in 0..n {
+        let id = format!("C12/{}/{}", S::NAME, i);
+        if !ctx.selected(&id) {
+            continue;
+        }
+        let mut rng = rng_for(ctx.seed, &format!("C12/{}", S::NAME), i as u64);
+        let npoly = range(&mut rng, 1, 3);
+        let inst: Instance<S> = match guarded(|| generic::instance::<S>(&mut rng, ctx.thorough, npoly)) {
+            Ok(Ok(x)) => x,
+            Ok(Err(e)) | Err(e) => {
+                ctx.rep.notes.push(format!("{}: instance generation failed ({}); not a C12 matter", id, e));
+                continue;
+            }
+        };
+        let nlabels = range(&mut rng, 1, 2);
+        let (qs, ev) = generic::query_set::<S>(&mut rng, &inst, nlabels, true);
+        let mut psp = generic::fresh_sponge();
+        let proof = match generic::batch_open::<S>(&inst, &qs, &mut psp, &mut rng) {
+            Ok(p) => p,
+            Err(e) => {
+                ctx.rep.notes.push(format!("{}: batch_open refused ({}); not a C12 matter", id, e));
+                continue;
+            }
+        };
+        // ---- byte-level checks of every artefact ----
+        let b_pp = layout_any(ctx, schemas, &id, &inst.pp as &dyn Any);
+        let _pp2 = artefact(ctx, &mut rng, &id, S::NAME, "universal-params", &inst.pp, &b_pp);
+        let b_ck = layout_any(ctx, schemas, &id, &inst.ck as &dyn Any);
+        let ck2 = artefact(ctx, &mut rng, &id, S::NAME, "committer-key", &inst.ck, &b_ck);
+        let b_vk = layout_any(ctx, schemas, &id, &inst.vk as &dyn Any);
+        let vk2 = artefact(ctx, &mut rng, &id, S::NAME, "verifier-key", &inst.vk, &b_vk);
+        let mut comms_cv: Vec<Comm<S>> = vec![];
+        let mut comms_un: Vec<Comm<S>> = vec![];
+        for (j, c) in inst.comms.iter().enumerate() {
+            let cp = artefact(ctx, &mut rng, &id, S::NAME, &format!("commitment#{}", j), c.commitment(), &NOB);
+            if let Some(c) = cp.cv { comms_cv.push(c) }
+            if let Some(c) = cp.un { comms_un.push(c) }
+        }
+        let mut states_cv: Vec<State<S>> = vec![];
+        for (j, st) in inst.states.iter().enumerate() {
+            let cp = artefact(ctx, &mut rng, &id, S::NAME, &format!("commitment-state#{}", j), st, &NOB);
+            if let Some(s) = cp.cv { states_cv.push(s) }
+        }
+        let proof2 = artefact(ctx, &mut rng, &id, S::NAME, "batch-proof", &proof, &NOB);
+        let singles: Vec<SProof<S>> = proof.clone().into();
+        for (j, p) in singles.iter().enumerate().take(2) {
+            let _ = artefact(ctx, &mut rng, &id, S::NAME, &format!("proof#{}", j), p, &NOB);
+        }
+        // ---- decisions with the deserialized copies ----
+        let keys: Vec<(String, Pt<S>)> = ev.keys().cloned().collect();
+        let mut ev_bad = ev.clone();
+        if !keys.is_empty() {
+            let k = range(&mut rng, 0, keys.len() - 1);
+            *ev_bad.get_mut(&keys[k]).unwrap() += rand_nonzero(&mut rng);
+        }
+        let vrng = rng.clone();
+        let decide = |vk: &VK<S>, comms: &[LabeledCommitment<Comm<S>>], e: &Evaluations<Pt<S>, Fr>, p: &BProof<S>| -> Outcome {
+            let mut sp = generic::fresh_sponge();
+            let mut r = vrng.clone();
+            Outcome::from(guarded(|| PCof::<S>::batch_check(vk, comms, &qs, e, p, &mut sp, &mut r)))
+        };
+        let o_honest = decide(&inst.vk, &inst.comms, &ev, &proof);
+        let o_bad = decide(&inst.vk, &inst.comms, &ev_bad, &proof);
+        let variants: Vec<(&str, Option<&VK<S>>, Option<Vec<LabeledCommitment<Comm<S>>>>, Option<&BProof<S>>)> = vec![
+            ("compressed+validated", vk2.cv.as_ref(),
+                if comms_cv.len() == inst.comms.len() { Some(relabel(&inst.comms, comms_cv.clone())) } else { None },
+                proof2.cv.as_ref()),
+            ("uncompressed+unvalidated", vk2.un.as_ref(),
+                if comms_un.len() == inst.comms.len() { Some(relabel(&inst.comms, comms_un.clone())) } else { None },
+                proof2.un.as_ref()),
+        ];
+        for (vname, vk_d, comms_d, proof_d) in variants {
+            let did = format!("{}/decision/{}", id, vname);
+            if let (Some(vk_d), Some(comms_d), Some(proof_d)) = (vk_d, comms_d, proof_d) {
+                // all three deserialized; then each alone
+                let combos: Vec<(&str, &VK<S>, &[LabeledCommitment<Comm<S>>], &BProof<S>)> = vec![
+                    ("vk+commitments+proof", vk_d, &comms_d[..], proof_d),
+                    ("vk", vk_d, &inst.comms[..], &proof),
+                    ("commitments", &inst.vk, &comms_d[..], &proof),
+                    ("proof", &inst.vk, &inst.comms[..], proof_d),
+                ];
+                for (cname, v, cs, p) in combos {
+                    let d_honest = decide(v, cs, &ev, p);
+                    let d_bad = decide(v, cs, &ev_bad, p);
+                    if d_honest != o_honest || d_bad != o_bad {
+                        ctx.rep.expect_fail(&did, &format!("{}/decision-differs/{}", S::NAME, cname),
+                            &format!("batch_check with deserialized {} ({}): honest {:?} (original {:?}), tampered {:?} (original {:?})",
+                                cname, vname, d_honest, o_honest, d_bad, o_bad),
+                            generic::fail_replay(&inst, &did, ctx.seed, &format!("deserialized {} ({})", cname, vname)));
+                    }
+                    ctx.rep.count(&format!("{}/decision/{}", S::NAME, cname));
+                }
+                ctx.rep.case(
+                    &format!("{} decisions {} honest={:?} tampered={:?}", inst.desc(), vname, o_honest, o_bad),
+                    Some(format!("{}/decision/{}/{}/{}", S::NAME, vname, npoly, qs.len())),
+                );
+            }
+        }
+        if !o_honest.accepted() || o_bad.accepted() {
+            ctx.rep.notes.push(format!("{}: original decisions honest={:?} tampered={:?} (C01/C02 matter; C12 compares only)", id, o_honest, o_bad));
+        }
+        // ---- the deserialized committer key and states still open ----
+        if let (Some(ck_d), true) = (ck2.cv.as_ref(), states_cv.len() == inst.states.len()) {
+            let did = format!("{}/prover-side", id);
+            let mut sp = generic::fresh_sponge();
+            let mut r = rng.clone();
+            let res = guarded(|| PCof::<S>::batch_open(ck_d, &inst.polys, &inst.comms, &qs, &mut sp, &states_cv, Some(&mut r)));
+            match res {
+                Ok(Ok(p3)) => {
+                    let d = decide(&inst.vk, &inst.comms, &ev, &p3);
+                    if d != o_honest {
+                        ctx.rep.expect_fail(&did, &format!("{}/decision-differs/committer-key+states", S::NAME),
+                            &format!("a proof made with the deserialized committer key and states is decided {:?}, the original {:?}", d, o_honest),
+                            generic::fail_replay(&inst, &did, ctx.seed, "deserialized committer key and commitment states"));
+                    }
+                }
+                Ok(Err(e)) => ctx.rep.expect_fail(&did, &format!("{}/decision-differs/committer-key+states", S::NAME),
+                    &format!("batch_open with the deserialized committer key and states refused: {:?}", e),
+                    generic::fail_replay(&inst, &did, ctx.seed, "deserialized committer key and commitment states")),
+                Err(a) => ctx.rep.expect_fail(&did, &format!("{}/decision-differs/committer-key+states", S::NAME),
+                    &format!("batch_open with the deserialized committer key and states aborted: {}", a),
+                    generic::fail_replay(&inst, &did, ctx.seed, "deserialized committer key and commitment states")),
+            }
+            ctx.rep.count(&format!("{}/decision/committer-key+states", S::NAME));
+            ctx.rep.case(&format!("{} prover side with deserialized ck/states", inst.desc()), None);
+        }
+        // ---- combination proof (BatchLCProof) ----
+        lc_case::<S>(ctx, &mut rng, &id, &inst, vk2.cv.as_ref());
+    }
+}
+
+fn lc_case<S: Scheme>(ctx: &mut Ctx, rng: &mut Rng, id: &str, inst: &Instance<S>, vk_d: Option<&VK<S>>)
+where
+    Pt<S>: Clone + Ord + std::fmt::Debug,
+    Comm<S>: Clone,
+    BProof<S>: Clone,
+{
+    // one linear combination: several terms over polynomials without degree bound, else one term
+    let free: Vec<usize> = (0..inst.polys.len()).filter(|&j| inst.polys[j].degree_bound().is_none()).collect();
+    let terms: Vec<(Fr, usize)> = if free.len() >= 2 {
+        free.iter().take(3).map(|&j| (Fr::rand(rng), j)).collect()
+    } else {
+        vec![(Fr::from(1u64), 0)]
+    };
+    let lc = LinearCombination::new(
+        "lc0",
+        terms.iter().map(|(c, j)| (*c, inst.polys[*j].label().clone())).collect::<Vec<_>>(),
+    );
+    let lcs = vec![lc];
+    let pt = S::rand_point(rng, &inst.sizes);
+    let mut qs: QuerySet<Pt<S>> = QuerySet::new();
+    qs.insert(("lc0".to_string(), ("z".to_string(), pt.clone())));
+    let val: Fr = terms.iter().map(|(c, j)| *c * inst.polys[*j].evaluate(&pt)).sum();
+    let mut ev: Evaluations<Pt<S>, Fr> = Evaluations::new();
+    ev.insert(("lc0".to_string(), pt.clone()), val);
+    let mut ev_bad = ev.clone();
+    *ev_bad.get_mut(&("lc0".to_string(), pt.clone())).unwrap() += rand_nonzero(rng);
+    let mut sp = generic::fresh_sponge();
+    let mut r = rng.clone();
+    let proof: BatchLCProof<Fr, BProof<S>> = match guarded(|| {
+        PCof::<S>::open_combinations(&inst.ck, &lcs, &inst.polys, &inst.comms, &qs, &mut sp, &inst.states, Some(&mut r))
+    }) {
+        Ok(Ok(p)) => p,
+        Ok(Err(e)) => {
+            ctx.rep.count(&format!("{}/lc-open-refused", S::NAME));
+            ctx.rep.notes.push(format!("{}: open_combinations refused ({:?}); not a C12 matter", id, e));
+            return;
+        }
+        Err(a) => {
+            ctx.rep.count(&format!("{}/lc-open-aborted", S::NAME));
+            ctx.rep.notes.push(format!("{}: open_combinations aborted ({}); not a C12 matter", id, a));
+            return;
+        }
+    };
+    let copies = artefact(ctx, rng, id, S::NAME, "combination-proof", &proof, &NOB);
+    let vrng = rng.clone();
+    let decide = |vk: &VK<S>, e: &Evaluations<Pt<S>, Fr>, p: &BatchLCProof<Fr, BProof<S>>| -> Outcome {
+        let mut sp = generic::fresh_sponge();
+        let mut r = vrng.clone();
+        Outcome::from(guarded(|| PCof::<S>::check_combinations(vk, &lcs, &inst.comms, &qs, e, p, &mut sp, &mut r)))
+    };
+    let o_h = decide(&inst.vk, &ev, &proof);
+    let o_b = decide(&inst.vk, &ev_bad, &proof);
+    for (vname, p) in [("compressed+validated", copies.cv.as_ref()), ("uncompressed+unvalidated", copies.un.as_ref())] {
+        if let Some(p) = p {
+            let did = format!("{}/lc-decision/{}", id, vname);
+            let vk = vk_d.unwrap_or(&inst.vk);
+            let d_h = decide(vk, &ev, p);
+            let d_b = decide(vk, &ev_bad, p);
+            if d_h != o_h || d_b != o_b {
+                ctx.rep.expect_fail(&did, &format!("{}/decision-differs/combination-proof", S::NAME),
+                    &format!("check_combinations with the deserialized proof ({}): honest {:?} (original {:?}), tampered {:?} (original {:?})", vname, d_h, o_h, d_b, o_b),
+                    generic::fail_replay(inst, &did, ctx.seed, "deserialized BatchLCProof"));
+            }
+            ctx.rep.count(&format!("{}/decision/combination-proof", S::NAME));
+            ctx.rep.case(&format!("{} lc terms={} {} honest={:?} tampered={:?}", inst.desc(), terms.len(), vname, o_h, o_b),
+                Some(format!("{}/lc/{}/{}", S::NAME, terms.len(), vname)));
+        }
+    }
+}
+
+// ------------------------------------------------------------------------------------------------
+// plain KZG10 and the multilinear PST scheme (not behind the trait)
+// ------------------------------------------------------------------------------------------------
+fn kzg_run(ctx: &mut Ctx, schemas: &[SchemaTxt], n: usize) {
+    for i in 0..n {
+        let id = format!("C12/kzg10/{}", i);
+        if !ctx.selected(&id) {
+            continue;
+        }
+        let mut rng = rng_for(ctx.seed, "C12/kzg10", i as u64);
+        let t = kzg::honest(&mut rng, 16);
+        // parameters: trapdoor-made (with and without G2 powers) and library-made
+        let with_g2 = i % 2 == 0;
+        let pp = t.trap.params(with_g2);
+        let b = layout_any(ctx, schemas, &id, &pp as &dyn Any);
+        let _ = artefact(ctx, &mut rng, &id, "kzg10", if with_g2 { "universal-params+g2powers" } else { "universal-params" }, &pp, &b);
+        if let Ok(Ok(lib_pp)) = guarded(|| kzg::Kzg::setup(range(&mut rng.clone(), 1, 12), !with_g2, &mut rng)) {
+            let lid = format!("{}/setup", id);
+            let b = layout_any(ctx, schemas, &lid, &lib_pp as &dyn Any);
+            let _ = artefact(ctx, &mut rng, &lid, "kzg10", "universal-params(setup)", &lib_pp, &b);
+        }
+        let b = layout_any(ctx, schemas, &id, &t.powers as &dyn Any);
+        let powers2 = artefact(ctx, &mut rng, &id, "kzg10", "powers", &t.powers, &b);
+        let b = layout_any(ctx, schemas, &id, &t.vk as &dyn Any);
+        let vk2 = artefact(ctx, &mut rng, &id, "kzg10", "verifier-key", &t.vk, &b);
+        let comm2 = artefact(ctx, &mut rng, &id, "kzg10", "commitment", &t.comm, &NOB);
+        let rand2 = artefact(ctx, &mut rng, &id, "kzg10", "commitment-state", &t.rand, &NOB);
+        let proof2 = artefact(ctx, &mut rng, &id, "kzg10", "proof", &t.proof, &NOB);
+        let bad = t.v + rand_nonzero(&mut rng);
+        let o_h = kzg::accepted(&kzg::check_impl(&t.vk, &t.comm, t.z, t.v, &t.proof));
+        let o_b = kzg::accepted(&kzg::check_impl(&t.vk, &t.comm, t.z, bad, &t.proof));
+        for (vname, vk, c, p) in [
+            ("compressed+validated", vk2.cv.as_ref(), comm2.cv.as_ref(), proof2.cv.as_ref()),
+            ("uncompressed+unvalidated", vk2.un.as_ref(), comm2.un.as_ref(), proof2.un.as_ref()),
+        ] {
+            if let (Some(vk), Some(c), Some(p)) = (vk, c, p) {
+                let did = format!("{}/decision/{}", id, vname);
+                let d_h = kzg::accepted(&kzg::check_impl(vk, c, t.z, t.v, p));
+                let d_b = kzg::accepted(&kzg::check_impl(vk, c, t.z, bad, p));
+                if d_h != o_h || d_b != o_b {
+                    ctx.rep.expect_fail(&did, "kzg10/decision-differs/vk+commitment+proof",
+                        &format!("KZG10::check with deserialized key, commitment, proof ({}): honest {} (original {}), tampered {} (original {})", vname, d_h, o_h, d_b, o_b),
+                        format!("# scheme: kzg10\n# {}\n# case: {}\n# rerun: .build/cargo/debug/pcv-harness C12 --seed {} --only {}\n", t.desc(), did, ctx.seed, id));
+                }
+                ctx.rep.count("kzg10/decision/vk+commitment+proof");
+                ctx.rep.case(&format!("{} decisions {} honest={} tampered={}", t.desc(), vname, o_h, o_b),
+                    Some(format!("kzg10/decision/{}/{}", vname, t.hb.is_some())));
+            }
+        }
+        // the deserialized powers and randomness still open
+        if let (Some(pw), Some(rd)) = (powers2.cv.as_ref(), rand2.cv.as_ref()) {
+            let did = format!("{}/prover-side", id);
+            match guarded(|| kzg::Kzg::open(pw, &t.p, t.z, rd)) {
+                Ok(Ok(p3)) => {
+                    let d = kzg::accepted(&kzg::check_impl(&t.vk, &t.comm, t.z, t.v, &p3));
+                    if d != o_h || p3 != t.proof {
+                        ctx.rep.expect_fail(&did, "kzg10/decision-differs/powers+randomness",
+                            &format!("opening with deserialized powers/randomness: accepted={} (original {}), same proof: {}", d, o_h, p3 == t.proof),
+                            format!("# scheme: kzg10\n# {}\n# case: {}\n", t.desc(), did));
+                    }
+                }
+                other => ctx.rep.expect_fail(&did, "kzg10/decision-differs/powers+randomness",
+                    &format!("KZG10::open with deserialized powers/randomness failed: {:?}", other.map(|r| r.map(|_| ()))),
+                    format!("# scheme: kzg10\n# {}\n# case: {}\n", t.desc(), did)),
+            }
+            ctx.rep.count("kzg10/decision/powers+randomness");
+        }
+    }
+}
+
+fn mlpc_run(ctx: &mut Ctx, n: usize) {
+    type ML = multilinear_pc::MultilinearPC<Bls12_381>;
+    for i in 0..n {
+        let id = format!("C12/multilinear_pc/{}", i);
+        if !ctx.selected(&id) {
+            continue;
+        }
+        let mut rng = rng_for(ctx.seed, "C12/multilinear_pc", i as u64);
+        let nv_max = range(&mut rng, 1, 4);
+        let nv = range(&mut rng, 1, nv_max);
+        let made = guarded(|| {
+            let pp = ML::setup(nv_max, &mut rng);
+            let (ck, vk) = ML::trim(&pp, nv);
+            (pp, ck, vk)
+        });
+        let (pp, ck, vk) = match made {
+            Ok(x) => x,
+            Err(a) => {
+                ctx.rep.notes.push(format!("{}: setup/trim aborted ({}); not a C12 matter", id, a));
+                continue;
+            }
+        };
+        let poly = DenseMultilinearExtension::<Fr>::rand(nv, &mut rng);
+        let point: Vec<Fr> = (0..nv).map(|_| Fr::rand(&mut rng)).collect();
+        let v = poly.evaluate(&point);
+        let opened = guarded(|| (ML::commit(&ck, &poly), ML::open(&ck, &poly, &point)));
+        let (comm, proof) = match opened {
+            Ok(x) => x,
+            Err(a) => {
+                ctx.rep.notes.push(format!("{}: commit/open aborted ({}); not a C12 matter", id, a));
+                continue;
+            }
+        };
+        let _ = artefact(ctx, &mut rng, &id, "multilinear_pc", "universal-params", &pp, &NOB);
+        let ck2 = artefact(ctx, &mut rng, &id, "multilinear_pc", "committer-key", &ck, &NOB);
+        let vk2 = artefact(ctx, &mut rng, &id, "multilinear_pc", "verifier-key", &vk, &NOB);
+        let comm2 = artefact(ctx, &mut rng, &id, "multilinear_pc", "commitment", &comm, &NOB);
+        let proof2 = artefact(ctx, &mut rng, &id, "multilinear_pc", "proof", &proof, &NOB);
+        let bad = v + rand_nonzero(&mut rng);
+        let chk = |vk: &multilinear_pc::data_structures::VerifierKey<Bls12_381>,
+                   c: &multilinear_pc::data_structures::Commitment<Bls12_381>,
+                   val: Fr,
+                   p: &multilinear_pc::data_structures::Proof<Bls12_381>| {
+            guarded(|| ML::check(vk, c, &point, val, p)).map_err(|_| "abort".to_string())
+        };
+        let o_h = chk(&vk, &comm, v, &proof);
+        let o_b = chk(&vk, &comm, bad, &proof);
+        for (vname, k, c, p) in [
+            ("compressed+validated", vk2.cv.as_ref(), comm2.cv.as_ref(), proof2.cv.as_ref()),
+            ("uncompressed+unvalidated", vk2.un.as_ref(), comm2.un.as_ref(), proof2.un.as_ref()),
+        ] {
+            if let (Some(k), Some(c), Some(p)) = (k, c, p) {
+                let did = format!("{}/decision/{}", id, vname);
+                let d_h = chk(k, c, v, p);
+                let d_b = chk(k, c, bad, p);
+                if d_h != o_h || d_b != o_b {
+                    ctx.rep.expect_fail(&did, "multilinear_pc/decision-differs/vk+commitment+proof",
+                        &format!("MultilinearPC::check with deserialized key, commitment, proof ({}): honest {:?} (original {:?}), tampered {:?} (original {:?})", vname, d_h, o_h, d_b, o_b),
+                        format!("# scheme: multilinear_pc nv_max={} nv={}\n# case: {}\n# rerun: .build/cargo/debug/pcv-harness C12 --seed {} --only {}\n", nv_max, nv, did, ctx.seed, id));
+                }
+                ctx.rep.count("multilinear_pc/decision/vk+commitment+proof");
+                ctx.rep.case(&format!("multilinear_pc nv_max={} nv={} decisions {} honest={:?} tampered={:?}", nv_max, nv, vname, o_h, o_b),
+                    Some(format!("multilinear_pc/decision/{}/{}", vname, nv)));
+            }
+        }
+        if let Some(ck_d) = ck2.cv.as_ref() {
+            let did = format!("{}/prover-side", id);
+            match guarded(|| (ML::commit(ck_d, &poly), ML::open(ck_d, &poly, &point))) {
+                Ok((c3, p3)) => {
+                    let same = ser_mode(&c3, Compress::Yes) == ser_mode(&comm, Compress::Yes)
+                        && ser_mode(&p3, Compress::Yes) == ser_mode(&proof, Compress::Yes);
+                    if !same {
+                        ctx.rep.expect_fail(&did, "multilinear_pc/decision-differs/committer-key",
+                            "commit/open with the deserialized committer key give a different commitment or proof",
+                            format!("# scheme: multilinear_pc nv_max={} nv={}\n# case: {}\n", nv_max, nv, did));
+                    }
+                }
+                Err(a) => ctx.rep.expect_fail(&did, "multilinear_pc/decision-differs/committer-key",
+                    &format!("commit/open with the deserialized committer key aborted: {}", a),
+                    format!("# scheme: multilinear_pc nv_max={} nv={}\n# case: {}\n", nv_max, nv, did)),
+            }
+            ctx.rep.count("multilinear_pc/decision/committer-key");
+        }
+    }
+}
 
 pub fn run(ctx: &mut Ctx) {
-    let _ = ctx;
+    let schemas = load_schemas(ctx);
+    let n = ctx.n(3, 20);
+    kzg_run(ctx, &schemas, ctx.n(4, 30));
+    ctx.flush_model("C12-kzg10");
+    scheme_run::<generic::Marlin>(ctx, &schemas, n);
+    scheme_run::<generic::Sonic>(ctx, &schemas, n);
+    ctx.flush_model("C12-marlin-sonic");
+    scheme_run::<generic::Ipa>(ctx, &schemas, n);
+    scheme_run::<generic::Pst13>(ctx, &schemas, n);
+    ctx.flush_model("C12-pst13");
+    scheme_run::<generic::Hyrax>(ctx, &schemas, n);
+    scheme_run::<generic::UniLigero>(ctx, &schemas, ctx.n(2, 10));
+    scheme_run::<generic::MlLigero>(ctx, &schemas, ctx.n(2, 10));
+    scheme_run::<generic::Brakedown>(ctx, &schemas, ctx.n(2, 10));
+    mlpc_run(ctx, ctx.n(3, 20));
+    ctx.rep.notes.push(
+        "streaming_kzg: CommitterKey / VerifierKey / Commitment / EvaluationProof implement neither CanonicalSerialize nor CanonicalDeserialize — no serializable artefact".into(),
+    );
+    ctx.rep.notes.push(format!(
+        "hand-written impls tied to the generated schema: {}",
+        schemas.iter().map(|s| s.name.clone()).collect::<Vec<_>>().join(", ")
+    ));
 }
